@@ -35,8 +35,9 @@ func runC19(x *Ctx) {
 	x.C.Rule("C19.R4", "validateKey: nil / wrong size / all-zero keys refused", 7)
 	x.C.Rule("C19.R5", "plaintext confinement in AddEncrypted; getters decrypt GetBytes and refuse for nothing else", 6)
 	x.C.Rule("C19.R6", "WithEncryptedMeta* options call AddEncrypted with their own parameters", 4)
-	x.C.Rule("C19.R7", "no decrypted / stored bytes are views into pooled memory", 2)
+	x.C.Rule("C19.R7", "no decrypted / stored bytes are views into pooled memory; keys and nonces are not kept in package-level scratch", 3)
 	x.poolDiscipline("C19.R7", "pkg/meta", "pkg/meta/internal/crypto")
+	sharedScratch(x, "C19.R7")
 
 	// R1 who-may-call
 	whoCalls := func(prefix string, allowed map[string]bool, key string) {
